@@ -368,7 +368,54 @@ def build(active_known=frozenset()):
               lambda a: z3.And(V.is_str(a.result), V.Val.s(a.result) == spec_munge(V.Val.s(a.s), V.Val.b(a.allow_builtins))))
     pack.extra.append(munge_injectivity(active_known))
     add_generator_contracts(pack)
+    # a refuted or undecided obligation is followed by a concrete scenario on the real classes; it only decides
+    # whether the VIOLATION line carries a reproduced input (and turns a solver `unknown` with a witness into a refutation)
+    for c in pack.contracts:
+        if c.replay_ is None and not getattr(c, "spec_only", False):
+            c.replay(lambda m, ctx, ob: NS_REPLAY)
+            c.replay_without_model = True
     return pack
+
+
+NS_REPLAY = r'''
+from basilisp.lang import runtime as rt, symbol as sym, keyword as kw, map as lmap
+bad = []
+def chk(desc, got, want):
+    if got is not want and got != want:
+        bad.append("%s => %r, expected %r" % (desc, got, want))
+ns = rt.Namespace(sym.symbol("c10-replay-a"))
+other = rt.Namespace(sym.symbol("c10-replay-b"))
+x, y, p = sym.symbol("x"), sym.symbol("y"), sym.symbol("p")
+v1, v2 = rt.Var(ns, x), rt.Var(ns, x)
+chk("intern of a new name returns the given Var", ns.intern(x, v1), v1)
+chk("intern of a known name returns the Var it already denotes", ns.intern(x, v2), v1)
+chk("find after two interns", ns.find(x), v1)
+chk("forced intern replaces", ns.intern(x, v2, force=True), v2)
+ns.intern(x, v1, force=True)
+ov = rt.Var(other, x); other.intern(x, ov)
+oy = rt.Var(other, y); other.intern(y, oy)
+pv = rt.Var(other, p, meta=lmap.map({kw.keyword("private"): True})); other.intern(p, pv)
+ns.add_refer(p, pv)
+chk("a private Var is not referred by add_refer", ns.get_refer(p), None)
+ns.refer_all(other)
+chk("refer_all refers a public Var", ns.get_refer(y), oy)
+chk("refer_all does not refer a private Var", ns.get_refer(p), None)
+chk("an interned Var shadows a referred one", ns.find(x), v1)
+chk("a referred Var is found when nothing is interned under the name", ns.find(y), oy)
+chk("an unknown name", ns.find(sym.symbol("nope")), None)
+ns.add_alias(other, sym.symbol("o"), sym.symbol("o2"))
+chk("alias", ns.get_alias(sym.symbol("o")), other); chk("second alias", ns.get_alias(sym.symbol("o2")), other)
+ns.remove_alias(sym.symbol("o")); chk("removed alias", ns.get_alias(sym.symbol("o")), None); chk("other alias kept", ns.get_alias(sym.symbol("o2")), other)
+ns.unmap(x); chk("unmapped name falls back to the refer", ns.find(x), ov)
+d1 = rt.Var.intern(ns, sym.symbol("d"), 1); d2 = rt.Var.intern(ns, sym.symbol("d"), 2)
+chk("def twice gives the same Var", d2, d1); chk("def twice: last value", d1.value, 2)
+from basilisp.lang import util
+chk("munge keyword", util.munge("class"), "class_"); chk("munge builtin", util.munge("print"), "print_"); chk("munge builtin allowed", util.munge("print", allow_builtins=True), "print")
+chk("munge ..", util.munge(".."), "__DOT_DOT__"); chk("munge chars", util.munge("a+b?"), "a__PLUS__b__Q__")
+for line in bad[:12]:
+    print(line)
+print("REPRODUCED" if bad else "not reproduced")
+'''
 
 
 # ----------------------------------------------------------------------------- the generator's choice: direct link or Var indirection
